@@ -405,7 +405,12 @@ func (p *queueProcessor) enqueueIfSlotAvailable(req *Request) bool {
 	}
 
 	verifhook.Point("q.after_slot_check", "id", req.GetID())
-	p.requestsWatcher.AddRequest(req)
+	if !p.requestsWatcher.AddRequest(req, p.maxQueueSize) {
+		// A concurrent request took the last slot between the check above and now
+		p.logger.Debug().Str("requestID", req.GetID()).
+			Msg("Slot not available anymore, dropping request")
+		return false
+	}
 
 	p.logger.Trace().Str("requestID", req.GetID()).Msg("Slot available, enqueuing")
 	if err := p.queue.Enqueue(req.GetID(), req.GetPriority()); err != nil {
